@@ -3424,12 +3424,19 @@ impl PeerConnection {
         }
         let _ = self.inner.ice_transport.start_gathering();
         let mut rx = self.subscribe_ice_gathering_state();
+        // Gathering never completes once the ICE transport was stopped or has failed
+        // underneath it, so stop waiting then instead of parking the caller forever.
+        let mut ice_rx = self.inner.ice_transport.subscribe_state();
         loop {
             if *rx.borrow_and_update() == IceGatheringState::Complete {
                 return;
             }
-            if rx.changed().await.is_err() {
+            if is_ice_failed_or_closed(*ice_rx.borrow_and_update()) {
                 return;
+            }
+            tokio::select! {
+                res = rx.changed() => if res.is_err() { return; },
+                res = ice_rx.changed() => if res.is_err() { return; },
             }
         }
     }
